@@ -24,9 +24,9 @@ theorem fieldFloatFacts (ok : OracleOK F) (B : ℤ) : FloatFacts F B where
   dblOpen_unit := by intro w; simp only [LT, v_lt, fz, v_ofInt, v_one, Int.cast_zero]; exact dblOpen_unit w
   log_nonpos := by
     intro u h0 h1; simp only [LE, v_le, fz, v_ofInt, v_one, Int.cast_zero] at *; exact ok.log_nonpos u h0 h1
-  exp_unit := by
+  exp_le_one := by
     intro x h; simp only [LE, v_le, fz, v_ofInt, v_one, Int.cast_zero] at *
-    exact ⟨ok.exp_nonneg x, ok.exp_le_one x h⟩
+    exact ok.exp_le_one x h
   exp_nonneg := by intro x c _; simp only [LE, v_le, fz, v_ofInt, Int.cast_zero]; exact ok.exp_nonneg x
   mul_inv_nonpos := by
     intro k x hk _ hx
@@ -45,7 +45,7 @@ theorem fieldFloatFacts (ok : OracleOK F) (B : ℤ) : FloatFacts F B where
     intro n u hn _ h0 h1
     simp only [LE, LT, v_le, v_lt, fz, v_ofInt, v_one, v_mul, I, Int.cast_zero] at *
     have hn' : (0:F) < (n : F) := by exact_mod_cast (show (0:ℤ) < n by omega)
-    exact ⟨mul_nonneg hn'.le h0, mul_lt_of_lt_one_right hn' h1⟩
+    exact mul_lt_of_lt_one_right hn' h1
   mul_unit_int := by
     intro q t h0 h1 ht _
     simp only [LE, v_le, fz, v_ofInt, v_one, v_mul, I, Int.cast_zero] at *
@@ -88,7 +88,7 @@ theorem fieldFloatFacts (ok : OracleOK F) (B : ℤ) : FloatFacts F B where
   floor_lt := by
     intro x n _ _ h0 h1
     simp only [LE, LT, v_le, v_lt, fz, v_ofInt, v_floorI, I, Int.cast_zero] at *
-    exact ⟨Int.floor_nonneg.2 h0, Int.floor_lt.2 h1⟩
+    exact Int.floor_lt.2 h1
 
 end
 
